@@ -638,8 +638,26 @@ class SymEx:
             if any(bn.split('.')[-1] in ('IntEnum', 'IntFlag', 'StrEnum') for k_ in c_.mro() for bn in k_.base_names):
                 out.append(lit)
             else:
-                out.append(('new', 'enum:' + c_.name, (('name', ('str', name)), ('value', lit))))
+                out.append(self._enum_member(c_, name, lit, expr))
         return ('list', tuple(out)) if out else v
+
+    def _enum_member(self, c_, name, lit, node):
+        """the member NAME = value of a plain Enum: a record (name, value) - plus the attributes a class-defined __init__(self, *value) assigns from the value"""
+        fields = {'name': ('str', name), 'value': lit}
+        init = c_.methods.get('__init__')
+        if init is not None:
+            args = list(lit[1]) if lit[0] == 'tuple' else [lit]
+            self.frames.append(self.M.module_func(c_.mod))
+            try:
+                res = self.construct(c_, self.bind(init, args, []), State(), node)
+            except Undecided:
+                res = []
+            finally:
+                self.frames.pop()
+            if len(res) == 1 and res[0][1][0] == 'new':
+                for k_, v_ in res[0][1][2]:
+                    fields.setdefault(k_, v_)
+        return ('new', 'enum:' + c_.name, tuple(sorted(fields.items())))
 
     def loop(self, s, st):
         is_for = isinstance(s, ast.For)
@@ -1591,7 +1609,7 @@ class SymEx:
                         if any(bn.split('.')[-1] in ('IntEnum', 'IntFlag', 'StrEnum') for k_ in c_.mro() for bn in k_.base_names):
                             out.append((x, lit))
                         else:
-                            out.append((x, ('new', 'enum:' + c_.name, (('name', ('str', e.attr)), ('value', lit)))))
+                            out.append((x, self._enum_member(c_, e.attr, lit, c_.class_attrs[e.attr])))
                         continue
                 m_ = c_.lookup(e.attr) if c_ is not None else None
                 if m_ is not None and not m_.is_property:
@@ -1602,10 +1620,13 @@ class SymEx:
                 if e.attr in d:
                     out.append((x, d[e.attr]))
                     continue
-                c = self.M.cls(b[1])
+                c = self.M.cls(b[1][5:] if b[1].startswith('enum:') else b[1])
                 m = c.lookup(e.attr) if c else None
                 if m is not None and m.is_property:
                     out.extend(self.inline(m, {}, b, x, e))
+                    continue
+                if m is not None and isinstance(e.ctx, ast.Load):
+                    out.append((x, ('attr', b, e.attr)))      # a bound method of the record, as a value
                     continue
                 out.append((x, k))
                 continue
@@ -2045,6 +2066,20 @@ class SymEx:
                 return out
         if is_nt_attr(recv, f):
             return self.nt_method(e, recv, f.attr, args, kwargs, st)
+        if isinstance(f, ast.Attribute) and recv is not None and recv[0] == 'new' and f.attr in dict(recv[2]) and not self.suppress:
+            # a field of a record that holds a function (member.apply = operator.iadd; rec.factory = SomeClass.create): call the value it holds
+            fv = dict(recv[2])[f.attr]
+            if _callable_value(fv, self):
+                return self.call_value(e, fv, args, kwargs, st)
+            if fv[0] == 'ext':
+                return self.call_opaque(e, fv, args, kwargs, st)
+        if isinstance(f, ast.Attribute) and recv is not None and recv[0] == 'new' and recv[1].startswith('enum:'):
+            # a method of an enumeration member: the member is known, so is its class
+            ec = self.M.cls(recv[1][5:])
+            em = ec.lookup(f.attr) if ec is not None else None
+            if em is not None and not em.is_property and not self.suppress:
+                bound = self.bind(em, args, kwargs)
+                return self.inline(em, bound, recv, st, e)
         if isinstance(f, ast.Attribute) and isinstance(f.value, ast.Name) and f.value.id in ('self', 'cls') and fn.cls is not None:
             # NAME = functools.partialmethod(method, *bound) in the class body: self.NAME(x) is self.method(*bound, x)
             holder = self.dyn.get(len(self.frames)) or fn.cls
@@ -2253,6 +2288,16 @@ class SymEx:
             if all(f_ in vals for f_ in fields) and not any(a[0] == 'starred' for a in args):
                 return [(st, make_nt(tname, [vals[f_] for f_ in fields]))]
             return self.call_opaque(e, fv, args, kwargs, st)
+        if fv[0] == 'fn' and fv[1] in self.M.funcs and self.M.funcs[fv[1]].is_classmethod and self.M.funcs[fv[1]].cls is not None:
+            # Class.make used as a value is already bound to its class: the arguments are the ones after `cls`
+            t = self.M.funcs[fv[1]]
+            ct = ('var', 'class:' + t.cls.name)
+            bound = self.bind(t, list(args), kwargs, skip_self=True)
+            if not self.suppress and self.policy(fn, t, len(self.frames)) and not any(fr.qn == t.qn for fr in self.frames):
+                return self.inline(t, bound, ct, st, e)
+            res = ('call', ('fn', t.qn), (ct,) + tuple(args), tuple(sorted(kwargs, key=lambda kv: str(kv[0]))))
+            x = st.ev(Ev('call', callee=[t.qn], args=bound, site=site, fn=fn.qn, how='func', layer=1, result=res, node=e, recv=ct))
+            return [(x, res)]
         if fv[0] == 'fn' and fv[1] in self.M.funcs and self.M.funcs[fv[1]].cls is not None and not self.M.funcs[fv[1]].is_static and args \
                 and not any(a[0] == 'starred' for a in args[:1]):
             t = self.M.funcs[fv[1]]           # Class.method(obj, ...) / the raw function inside a decorator's wrapper
@@ -2411,7 +2456,8 @@ class SymEx:
             return [(self.assign(tgt, args[2], st, e), NONE)]
         if fv[0] == 'ext' and fv[1].startswith('operator.') and not kws:
             opn = fv[1][9:].strip('_')
-            bin_ = {'add': ast.Add, 'sub': ast.Sub, 'mul': ast.Mult, 'truediv': ast.Div, 'floordiv': ast.FloorDiv, 'mod': ast.Mod, 'pow': ast.Pow}
+            bin_ = {'add': ast.Add, 'sub': ast.Sub, 'mul': ast.Mult, 'truediv': ast.Div, 'floordiv': ast.FloorDiv, 'mod': ast.Mod, 'pow': ast.Pow,
+                    'iadd': ast.Add, 'isub': ast.Sub, 'imul': ast.Mult, 'itruediv': ast.Div}       # on numbers the in-place forms return the same value
             cmp_ = {'lt': ast.Lt, 'le': ast.LtE, 'eq': ast.Eq, 'ne': ast.NotEq, 'ge': ast.GtE, 'gt': ast.Gt, 'is': ast.Is, 'is_not': ast.IsNot}
             if opn in bin_ and len(args) == 2:
                 return [(st, self.binop(bin_[opn](), args[0], args[1]))]
